@@ -36,5 +36,11 @@ def units(tier):
         H("C05", M, "check_join_internals", t, [PE + "join_executor_internals"], "0..3 workers each alive or not"),
         H("C05", M, "check_flag_shutting_down", t, [PE + "flag_executor_shutting_down"], "0..3 pending, 0..3 workers, kill flag symbolic"),
         H("C05", M, "check_shutdown_call", t, ["loky.process_executor:ProcessPoolExecutor.shutdown"], "wait / kill_workers / manager started: all 8 combinations"),
+        H("C05", M, "check_exit_registry", t, ["loky.process_executor:ProcessPoolExecutor._start_executor_manager_thread", "loky.process_executor:_python_exit", "loky.process_executor:ProcessPoolExecutor.shutdown"],
+          "1..3 executors released by shutdown(wait=False) / plain drop / shutdown(wait=True), with or without the interpreter-exit hook running first"),
+        H("C05", "lokyverif.harness.c02_broken", "check_run_loop", t, ["loky.process_executor:_ExecutorManagerThread.run"],
+          "1..4 turns of the manager loop, each a wake-up / a result / a broken pool; shutdown flag raised at turn 0..4; work left or not after each turn"),
+        H("C05", M, "check_gc_wakeup", t, [PE + "__init__"], "weakref callback of the real manager-thread constructor; shutdown lock free or held by another thread; multiprocessing module already torn down or not"),
+        H("C05", M, "check_flags_step", t, ["loky.process_executor:_ExecutorFlags.flag_as_shutting_down"], "all 24 combinations of previous flags and request"),
         H("C05", "lokyverif.harness.c03_steps", "check_submit_step", t, ["loky.process_executor:ProcessPoolExecutor.submit"], "submit after shutdown raises ShutdownExecutorError"),
     ]
